@@ -850,3 +850,33 @@ func (m *Model) inMustOf(q Param, s int, self *Dec, fd *Reg) bool {
 
 // depth of the dependency closure below start (longest chain, cycles cut), for the stack bound.
 func (m *Model) fnCount() int { return len(m.regs) + len(m.decs) }
+
+// decoratorMediatedCycle: some decorator transitively needs a function that (from its own resolution
+// scope) consumes a key this very decorator decorates. No assignment of values satisfies C12 for such a
+// program, and what dig does with it depends on the evaluation order (DESIGN 10.1).
+func (m *Model) decoratorMediatedCycle(role map[int]interface{}) bool {
+	for _, d := range m.decs {
+		for fid := range m.may(decNode(d)) {
+			var n node
+			switch x := role[fid].(type) {
+			case *Reg:
+				n = regNode(x)
+			case *Dec:
+				if x == d {
+					continue
+				}
+				n = decNode(x)
+			default:
+				continue
+			}
+			for _, p := range n.f.Params {
+				for _, d2 := range m.decsOf(n.s, p.K, n.self) {
+					if d2 == d {
+						return true
+					}
+				}
+			}
+		}
+	}
+	return false
+}
